@@ -59,6 +59,32 @@ def sanitiser_first(repo, f):
     return nops, bad
 
 
+def _private_constant(repo, mod, lit, users):
+    """lit is (part of) the value of a module-level `NAME = ...` of `mod` and NAME is loaded only inside `users`."""
+    name = None
+    for st in mod.tree.body:
+        if isinstance(st, (ast.Assign, ast.AnnAssign)) and any(x is lit for x in ast.walk(st)):
+            tg = st.targets if isinstance(st, ast.Assign) else [st.target]
+            if len(tg) == 1 and isinstance(tg[0], ast.Name):
+                name = tg[0].id
+    if name is None:
+        return False
+    n_loads = 0
+    for g in repo.all_funcs():
+        for x in g.body_nodes():
+            hit = False
+            if isinstance(x, ast.Name) and x.id == name and isinstance(x.ctx, ast.Load):
+                r = repo.lookup(g.module, name)
+                hit = bool(r and r[0] == 'var' and r[3] is mod)
+            elif isinstance(x, ast.Attribute) and x.attr == name and isinstance(x.ctx, ast.Load):
+                hit = True
+            if hit:
+                n_loads += 1
+                if g not in users:
+                    return False
+    return n_loads > 0
+
+
 def run(ctx):
     repo = ctx.repo
     ef = effects(repo)
@@ -74,9 +100,13 @@ def run(ctx):
         for n in f.body_nodes():
             if isinstance(n, ast.Constant) and isinstance(n.value, str) and (ESC in n.value or '\\x1b' in n.value or '\\033' in n.value or '\\e[' in n.value):
                 nesc += 1
+                if f.module is um and f.name == '<module>' and _private_constant(repo, um, n, (f_color, f_noc)):
+                    # a module-level constant read only by color()/no_color(): the same spelling, hoisted
+                    ctx.check(True, 'C17.1', 'esc-literal:%s:private-constant' % f.qual, f.loc(n), 'escape-sequence constant used only by color()/no_color()')
+                    continue
                 ctx.check(f is f_color or f is f_noc, 'C17.1', 'esc-literal:%s' % f.qual, f.loc(n), 'escape sequences are spelled only inside color()/no_color()',
                           'an escape sequence is emitted outside color(): %r in %s (printed even with colour disabled / not strippable)' % (n.value[:20], f.short))
-    ctx.floor('C17.1', nesc, 4, 'ESC literals')
+    ctx.floor('C17.1', nesc, 2, 'ESC literals')
     reads = []
     for f in repo.all_funcs():
         for n in f.body_nodes():
@@ -88,7 +118,7 @@ def run(ctx):
                 reads.append((f, n))
     for f, n in reads:
         ctx.check(f is f_color, 'C17.1', 'switch-read:%s' % f.qual, f.loc(n), 'the colour switch is read only by color()', 'the colour switch is also read in %s' % f.short)
-    ctx.floor('C17.1', len(reads), 2, 'reads of color_output')
+    ctx.floor('C17.1', len(reads), 1, 'reads of color_output')
     check_writers(ctx, 'C17.1', 'module:core.util', 'color_output', [('<module>', None), ('set_color_output', lambda w: norm(w.stmt.value) == 'val')], floor=2)
 
     # ---- C17.2 -----------------------------------------------------------------------------------------------
@@ -194,16 +224,33 @@ def run(ctx):
         except KeyError as ex_:
             ctx.violation('C17.3', 'code:%s:%s' % (f.qual, norm(n.args[0])[:40]), f.loc(n), 'cannot show that colour code %s is strippable (not a constant / known alias)' % norm(n.args[0])[:60])
     ctx.floor('C17.3', ncodes, 60, 'color() call sites')
-    subs = [n for n in f_noc.body_nodes() if isinstance(n, ast.Call) and norm(n.func) == 're.sub']
-    if len(subs) != 1 or not isinstance(subs[0].args[0], ast.Constant):
+    subs = []
+    extra = []
+    for n in f_noc.body_nodes():
+        if isinstance(n, ast.Call) and norm(n.func) == 're.sub' and len(n.args) >= 3:
+            subs.append((n.args[0], n.args[1], n.args[2], n))
+            extra = [norm(x) for x in n.args[3:]] + ['%s=%s' % (k.arg, norm(k.value)) for k in n.keywords]
+        elif isinstance(n, ast.Call) and isinstance(n.func, ast.Attribute) and n.func.attr == 'sub' and isinstance(n.func.value, ast.Name) and len(n.args) >= 2:
+            extra = [norm(x) for x in n.args[2:]] + ['%s=%s' % (k.arg, norm(k.value)) for k in n.keywords]
+            # a pattern compiled once at module level: X = re.compile(<literal>); X.sub('', string)
+            r_ = repo.lookup(f_noc.module, n.func.value.id)
+            v_ = r_[1] if r_ and r_[0] == 'var' else None
+            if isinstance(v_, ast.Call) and norm(v_.func) == 're.compile' and len(v_.args) == 1 and not v_.keywords:
+                subs.append((v_.args[0], n.args[0], n.args[1], n))
+    if len(subs) != 1 or not isinstance(subs[0][0], ast.Constant):
         raise AnalysisError('C17.3: no_color is no longer one re.sub with a literal pattern')
-    pat = subs[0].args[0].value
+    pat_n, repl_n, subj_n, sub_call = subs[0]
+    pat = pat_n.value
     emitted = rx.regex_nfa('\\x1b\\[[0-9;]*m', 'full')
     cex = rx.included(emitted, rx.regex_nfa(pat, 'full'))
-    ctx.check(cex is None and isinstance(subs[0].args[1], ast.Constant) and subs[0].args[1].value == '' and norm(subs[0].args[2]) == 'string' and len(subs[0].args) == 3 and not subs[0].keywords,
+    ctx.check(cex is None and isinstance(repl_n, ast.Constant) and repl_n.value == '' and norm(subj_n) == f_noc.params()[0],
               'C17.3', 'no_color:covers-emitted', f_noc.loc(), 'every sequence ESC [ digits/semicolons m is removed by no_color', 'no_color leaves %r in place' % cex)
+    if any(x.startswith('flags=') for x in extra):
+        raise AnalysisError('C17.3: no_color passes regex flags (%s); the inclusion check does not model flags' % extra)
+    ctx.check(not extra, 'C17.3', 'no_color:all-occurrences', f_noc.loc(), 'the substitution has no count / flags argument: every occurrence is removed',
+              'no_color passes %s to the substitution: a positional 4th argument of re.sub is `count`, so only the first occurrences are removed' % extra)
     for p in paths_of(repo, f_noc):
-        ctx.check(p.outcome[0] == 'return' and norm(p.outcome[1]).startswith('re.sub('), 'C17.3', 'no_color:returns-sub', f_noc.loc(), 'no_color returns the substituted text')
+        ctx.check(p.outcome[0] == 'return' and norm(p.outcome[1]) == norm(sub_call), 'C17.3', 'no_color:returns-sub', f_noc.loc(), 'no_color returns the substituted text')
 
     # ---- C17.4 -----------------------------------------------------------------------------------------------
     def tainted_names(f):
